@@ -748,6 +748,9 @@ func cmdLibraries(ss *serverSession) {
 
 func cmdLog(ss *serverSession) {
 	s := ss.GetStr()
+	if du, ok := ss.sc.dbms.(*DbmsUnauth); ok {
+		du.Log(s) // panics, not authorized
+	}
 	if msg := ss.sc.limitLog(s); msg != "" {
 		ss.sc.dbms.Log(msg)
 	}
